@@ -8,6 +8,7 @@ import (
 	"math"
 	"os"
 	"strings"
+	"sync"
 	"unicode/utf8"
 
 	"golang.org/x/tools/go/ssa"
@@ -1222,7 +1223,11 @@ func (i *Interp) conv(fr *frame, t_dst, t_src types.Type, x value) value {
 
 var ptrIDs = map[*value]int64{}
 
+var ptrIDsMu sync.Mutex
+
 func ptrToInt(p *value) int64 {
+	ptrIDsMu.Lock()
+	defer ptrIDsMu.Unlock()
 	if id, ok := ptrIDs[p]; ok {
 		return id
 	}
